@@ -141,7 +141,14 @@ def checkNonWsPara (op : String) (od : Options Int) (text out : List Int) (hyphe
   let a := (nonWsBy2 od.paraSep od.lineSep text).flatten.map fun r => [r]
   let b := (nonWsBy2 od.paraSep od.lineSep out).flatten.map fun r => [r]
   let good := if hyphensAdded then subseqHy a b else a == b
-  if good then "ok"
+  -- second reading: the paragraph separators' own visible characters are text that is kept in
+  -- place (only line separators are re-made by the operation).  It differs from the first when
+  -- the operation happens to break a line exactly where ordinary text spells out a paragraph
+  -- separator (or un-breaks one): the cluster sequence is unchanged, which is what C07 states.
+  let a2 := (nonWsBy od.lineSep text).flatten.map fun r => [r]
+  let b2 := (nonWsBy od.lineSep out).flatten.map fun r => [r]
+  let good2 := if hyphensAdded then subseqHy a2 b2 else a2 == b2
+  if good || good2 then "ok"
   else if !wsStable ([0x20] ++ flatText (flatText text od.paraSep) od.lineSep ++ [0x20]) then
     s!"fail:C07 not-WsStable input: non-whitespace clusters changed by {op} (paragraph mode)"
   else if !sepsIndependent od ∧ !(od.paraSep.length % od.lineSep.length == 0 ∧
